@@ -18,9 +18,9 @@ def DInv (b : Beh) (C rem : List Byte) (t : Target) : Prop :=
   (t.snd = .drain → t.rClosed = true) ∧
   (t.wClosed = true → t.snd = .exit ∨ t.snd = .drain) ∧
   (match t.cop with
-   | .none => t.got = [] ∧ t.results = [] ∧ t.got ++ pend t.snd ++ t.buf.flatten ++ rem = C
-   | .lock => t.got = [] ∧ t.results = [] ∧ t.got ++ pend t.snd ++ t.buf.flatten ++ rem = C
-   | .read left => b.missing = false ∧ t.results = [] ∧ t.got ++ pend t.snd ++ t.buf.flatten ++ rem = C ∧ LeftOK b t.got left
+   | .none => t.got = [] ∧ t.results = [] ∧ t.got ++ pend t.snd ++ (t.buf.map (·.chunk)).flatten ++ rem = C
+   | .lock => t.got = [] ∧ t.results = [] ∧ t.got ++ pend t.snd ++ (t.buf.map (·.chunk)).flatten ++ rem = C
+   | .read left => b.missing = false ∧ t.results = [] ∧ t.got ++ pend t.snd ++ (t.buf.map (·.chunk)).flatten ++ rem = C ∧ LeftOK b t.got left
    | .report e => t.results = [] ∧ e = expectedErr b ∧ t.got = expectedGot b C
    | .close => t.results = [expectedErr b] ∧ t.got = expectedGot b C
    | .done => t.results = [expectedErr b] ∧ t.got = expectedGot b C)
@@ -28,8 +28,8 @@ def DInv (b : Beh) (C rem : List Byte) (t : Target) : Prop :=
 theorem DInv.init (b : Beh) (C : List Byte) : DInv b C C {} := by
   simp [DInv, pend]
 
-theorem DInv.push {b : Beh} {C rem : List Byte} {t t' : Target} {ch : List Byte}
-    (h : DInv b C (ch ++ rem) t) (hp : t.push ch = some t') : DInv b C rem t' := by
+theorem DInv.push {b : Beh} {C rem : List Byte} {t t' : Target} {ch : Msg}
+    (h : DInv b C (ch.chunk ++ rem) t) (hp : t.push ch = some t') : DInv b C rem t' := by
   unfold Target.push at hp
   split at hp
   · injection hp with hp; subst hp
@@ -173,63 +173,81 @@ theorem DInv.copStep {b : Beh} {C rem : List Byte} {t t' : Target} {c : Bool}
 /-! ### the whole call -/
 
 /-- bytes of the chunks still to be pushed to target `i` -/
-def remOf (i : Nat) : List (Nat × List Byte) → List Byte
+def remOf (i : Nat) : List (Nat × Msg) → List Byte
   | [] => []
-  | (j, ch) :: r => if j = i then ch ++ remOf i r else remOf i r
+  | (j, ch) :: r => if j = i then ch.chunk ++ remOf i r else remOf i r
 
-theorem remOf_append (i : Nat) (a b : List (Nat × List Byte)) : remOf i (a ++ b) = remOf i a ++ remOf i b := by
+theorem remOf_append (i : Nat) (a b : List (Nat × Msg)) : remOf i (a ++ b) = remOf i a ++ remOf i b := by
   induction a with
   | nil => rfl
   | cons p r ih =>
     obtain ⟨j, ch⟩ := p
     by_cases h : j = i <;> simp [remOf, h, ih]
 
-theorem remOf_row (i n : Nat) (ch : List Byte) (hi : i < n) :
-    remOf i ((List.range n).map fun j => (j, ch)) = ch := by
-  induction n with
-  | zero => omega
-  | succ n ih =>
-    rw [List.range_succ, List.map_append, remOf_append]
-    by_cases h : i < n
-    · rw [ih h]
-      have : ¬ n = i := by omega
-      simp [remOf, this]
-    · have hin : i = n := by omega
-      subst hin
-      have hz : remOf i ((List.range i).map fun j => (j, ch)) = [] := by
-        have : ∀ (l : List Nat), (∀ j ∈ l, j ≠ i) → remOf i (l.map fun j => (j, ch)) = [] := by
-          intro l hl
-          induction l with
-          | nil => rfl
-          | cons x r ihr =>
-            have hx : ¬ x = i := hl x (by simp)
-            simp only [List.map_cons, remOf, hx, if_false]
-            exact ihr (fun j hj => hl j (by simp [hj]))
-        exact this _ (fun j hj => by simp at hj; omega)
-      rw [hz]; simp [remOf]
+theorem remOf_filter_ne (i x : Nat) (ch : Msg) (hx : x ≠ i) (l : List Nat) :
+    remOf i ((l.filter (· ≠ x)).map fun j => (j, ch)) = remOf i (l.map fun j => (j, ch)) := by
+  induction l with
+  | nil => rfl
+  | cons y r ih =>
+    by_cases hy : y = x
+    · subst hy
+      simp only [List.filter_cons, ne_eq, not_true_eq_false, decide_false, Bool.false_eq_true, if_false,
+        List.map_cons, remOf, hx, ih]
+    · have : decide (y ≠ x) = true := by simpa using hy
+      simp only [List.filter_cons, this, if_true, List.map_cons, remOf, ih]
 
-theorem remOf_init (i n : Nat) (chunks : List (List Byte)) (hi : i < n) :
-    remOf i (initState n chunks).todo = chunks.flatten := by
+theorem remOf_absent (i : Nat) (ch : Msg) (l : List Nat) (h : i ∉ l) :
+    remOf i (l.map fun j => (j, ch)) = [] := by
+  induction l with
+  | nil => rfl
+  | cons y r ih =>
+    have hy : ¬ y = i := fun e => h (by simp [e])
+    simp only [List.map_cons, remOf, hy, if_false]
+    exact ih (fun hm => h (by simp [hm]))
+
+/-- every listed target gets each message exactly once, however often it is listed -/
+theorem remOf_row (i : Nat) (ids : List Nat) (ch : Msg) (hi : i ∈ ids) :
+    remOf i ((dedup ids).map fun j => (j, ch)) = ch.chunk := by
+  induction ids with
+  | nil => cases hi
+  | cons x r ih =>
+    simp only [dedup, List.map_cons, remOf]
+    by_cases hx : x = i
+    · subst hx
+      simp only [if_true]
+      have : remOf x (((dedup r).filter (· ≠ x)).map fun j => (j, ch)) = [] := by
+        apply remOf_absent
+        intro hm
+        have := (List.mem_filter.mp hm).2
+        simp at this
+      rw [this]; simp
+    · simp only [hx, if_false]
+      rw [remOf_filter_ne i x ch hx]
+      exact ih (by simp at hi; rcases hi with h | h; exact absurd h.symm hx; exact h)
+
+theorem remOf_init (i n : Nat) (ids : List Nat) (msgs : List Msg) (hi : i ∈ ids) :
+    remOf i (initState n ids msgs).todo = (msgs.map (·.chunk)).flatten := by
   unfold initState
   simp only
-  induction chunks with
+  induction msgs with
   | nil => rfl
   | cons ch r ih =>
-    rw [List.flatMap_cons, remOf_append, remOf_row i n ch hi, ih]
+    rw [List.flatMap_cons, remOf_append, remOf_row i ids ch hi, ih]
     simp
 
-/-- global data invariant -/
-def DG (behs : List Beh) (C : List Byte) (s : State) : Prop :=
-  (∀ i t b, s.ts[i]? = some t → behs[i]? = some b → DInv b C (remOf i s.todo) t) ∧
-  (∀ i t, s.ts[i]? = some t → t.created = true ∨ ∃ ch, (i, ch) ∈ s.todo)
+/-- global data invariant: `C` = the whole file, `M` = the metadata every message carries, `ids` = the listed targets -/
+def DG (behs : List Beh) (ids : List Nat) (C : List Byte) (M : CopyArgs) (s : State) : Prop :=
+  (∀ i t b, i ∈ ids → s.ts[i]? = some t → behs[i]? = some b → DInv b C (remOf i s.todo) t) ∧
+  (∀ i t, i ∈ ids → s.ts[i]? = some t → t.created = true ∨ ∃ ch, (i, ch) ∈ s.todo) ∧
+  (∀ p ∈ s.todo, p.2.md = M) ∧
+  (∀ t ∈ s.ts, (∀ m ∈ t.buf, m.md = M) ∧ (t.cop ≠ .none → t.args = some M))
 
-theorem DG.init (behs : List Beh) (chunks : List (List Byte)) (hne : chunks ≠ []) :
-    DG behs chunks.flatten (initState behs.length chunks) := by
-  constructor
-  · intro i t b hti hbi
-    have hi : i < behs.length := by
-      have := (List.getElem?_eq_some_iff.mp hbi).1; exact this
-    rw [remOf_init i _ chunks hi]
+theorem DG.init (behs : List Beh) (ids : List Nat) (msgs : List Msg) (M : CopyArgs) (hne : msgs ≠ [])
+    (hM : ∀ m ∈ msgs, m.md = M) :
+    DG behs ids (msgs.map (·.chunk)).flatten M (initState behs.length ids msgs) := by
+  refine ⟨?_, ?_, ?_, ?_⟩
+  · intro i t b hi hti hbi
+    rw [remOf_init i _ ids msgs hi]
     have : t = {} := by
       simp only [initState] at hti
       have := List.getElem?_eq_some_iff.mp hti
@@ -237,23 +255,76 @@ theorem DG.init (behs : List Beh) (chunks : List (List Byte)) (hne : chunks ≠ 
       simpa using h2.symm
     subst this
     exact DInv.init b _
-  · intro i t hti
+  · intro i t hi hti
     right
-    have hi : i < behs.length := by
-      simp only [initState] at hti
-      have := (List.getElem?_eq_some_iff.mp hti).1
-      simpa using this
-    cases chunks with
+    cases msgs with
     | nil => exact absurd rfl hne
     | cons ch r =>
       refine ⟨ch, ?_⟩
-      simp only [initState, List.flatMap_cons, List.mem_append, List.mem_map, List.mem_range]
-      exact Or.inl ⟨i, hi, rfl⟩
+      simp only [initState, List.flatMap_cons, List.mem_append, List.mem_map]
+      exact Or.inl ⟨i, mem_dedup.mpr hi, rfl⟩
+  · intro p hp
+    simp only [initState, List.mem_flatMap, List.mem_map] at hp
+    obtain ⟨m, hm, _, _, rfl⟩ := hp
+    exact hM m hm
+  · intro t ht
+    simp [initState] at ht
+    rw [ht.2]; simp
 
-theorem DG.step (behs : List Beh) (C : List Byte) (s s' : State) (a : Action) (hI : GInv behs s)
-    (hD : DG behs C s) (h : step behs s a = some s') : DG behs C s' := by
+/-- a sender step keeps the metadata facts: buffer messages carry `M`; once started, args = `M` -/
+theorem args_sndStep {M : CopyArgs} {t t' : Target} (hb : ∀ m ∈ t.buf, m.md = M) (ha : t.cop ≠ .none → t.args = some M)
+    (hs : t.sndStep = some t') : (∀ m ∈ t'.buf, m.md = M) ∧ (t'.cop ≠ .none → t'.args = some M) := by
+  unfold Target.sndStep at hs
+  cases hsnd : t.snd with
+  | exit => simp [hsnd] at hs
+  | write p o =>
+    simp only [hsnd] at hs
+    repeat' split at hs
+    all_goals (try (cases hs; done))
+    all_goals (injection hs with hs; subst hs; exact ⟨hb, ha⟩)
+  | recv =>
+    simp only [hsnd] at hs
+    cases hbuf : t.buf with
+    | nil =>
+      simp only [hbuf] at hs
+      split at hs
+      · injection hs with hs; subst hs; exact ⟨by simpa [hbuf] using hb, ha⟩
+      · cases hs
+    | cons m rest =>
+      simp only [hbuf] at hs
+      injection hs with hs; subst hs
+      refine ⟨fun x hx => hb x (by rw [hbuf]; simp [hx]), ?_⟩
+      intro _
+      by_cases hc : t.cop = .none
+      · simp [hc, hb m (by rw [hbuf]; simp)]
+      · simp [hc, ha hc]
+  | drain =>
+    simp only [hsnd] at hs
+    cases hbuf : t.buf with
+    | nil =>
+      simp only [hbuf] at hs
+      split at hs
+      · injection hs with hs; subst hs; exact ⟨by simpa [hbuf] using hb, ha⟩
+      · cases hs
+    | cons m rest =>
+      simp only [hbuf] at hs
+      injection hs with hs; subst hs
+      exact ⟨fun x hx => hb x (by rw [hbuf]; simp [hx]), ha⟩
+
+theorem args_copStep {M : CopyArgs} {b : Beh} {t t' : Target} (hb : ∀ m ∈ t.buf, m.md = M) (ha : t.cop ≠ .none → t.args = some M)
+    (hs : t.copStep b = some t') : (∀ m ∈ t'.buf, m.md = M) ∧ (t'.cop ≠ .none → t'.args = some M) := by
+  have hne : t.cop ≠ .none := by
+    intro e; unfold Target.copStep at hs; simp [e] at hs
+  have hA := ha hne
+  unfold Target.copStep at hs
+  repeat' split at hs
+  all_goals (try (cases hs; done))
+  all_goals (injection hs with hs; subst hs; exact ⟨hb, fun _ => hA⟩)
+
+theorem DG.step (behs : List Beh) (ids : List Nat) (C : List Byte) (M : CopyArgs) (s s' : State) (a : Action)
+    (hI : GInv behs s) (hD : DG behs ids C M s) (h : step behs s a = some s') : DG behs ids C M s' := by
   obtain ⟨hl, hT, htodo, hc⟩ := hI
-  obtain ⟨hd, hcr⟩ := hD
+  obtain ⟨hd, hcr, hmd, hargs⟩ := hD
   have hremc : ∀ i t, s.ts[i]? = some t → t.bufClosed = true → remOf i s.todo = [] := by
     intro i t hti hbc
     have hinv := hT t (List.mem_of_getElem? hti)
@@ -271,34 +342,36 @@ theorem DG.step (behs : List Beh) (C : List Byte) (s s' : State) (a : Action) (h
         | some tj' =>
           simp [hp] at h; subst h
           have hj : j < s.ts.length := (List.getElem?_eq_some_iff.mp htj).1
-          constructor
-          · intro i t b hti hbi
+          have hchM : ch.md = M := hmd (j, ch) (by rw [hrest]; simp)
+          have htj' : tj' = { tj with buf := tj.buf ++ [ch], created := true } := by
+            unfold Target.push at hp
+            split at hp
+            · injection hp with hp; exact hp.symm
+            · cases hp
+          refine ⟨?_, ?_, ?_, ?_⟩
+          · intro i t b hi hti hbi
             simp only [List.getElem?_set] at hti
             by_cases hij : j = i
             · subst hij
               simp only [hj, if_true] at hti
               injection hti with hti; subst hti
-              have := hd j tj b htj hbi
+              have := hd j tj b hi htj hbi
               rw [hrest] at this
               simp only [remOf, if_true] at this
               exact DInv.push this hp
             · simp only [hij, if_false] at hti
-              have := hd i t b hti hbi
+              have := hd i t b hi hti hbi
               rw [hrest] at this
               simpa [remOf, hij] using this
-          · intro i t hti
+          · intro i t hi hti
             simp only [List.getElem?_set] at hti
             by_cases hij : j = i
             · subst hij
               simp only [hj, if_true] at hti
               injection hti with hti; subst hti
-              left
-              unfold Target.push at hp
-              split at hp
-              · injection hp with hp; subst hp; rfl
-              · cases hp
+              left; rw [htj']
             · simp only [hij, if_false] at hti
-              rcases hcr i t hti with hc' | ⟨ch', hm⟩
+              rcases hcr i t hi hti with hc' | ⟨ch', hm⟩
               · exact Or.inl hc'
               · right
                 rw [hrest] at hm
@@ -306,29 +379,47 @@ theorem DG.step (behs : List Beh) (C : List Byte) (s s' : State) (a : Action) (h
                 rcases hm with ⟨e, _⟩ | hm
                 · exact absurd e.symm hij
                 · exact ⟨ch', hm⟩
+          · intro p hp'
+            exact hmd p (by rw [hrest]; simp [hp'])
+          · intro t ht
+            rcases mem_set_cases ht with rfl | ht
+            · obtain ⟨h1, h2⟩ := hargs tj (List.mem_of_getElem? htj)
+              rw [htj']
+              refine ⟨?_, h2⟩
+              intro m hm
+              simp only [List.mem_append, List.mem_singleton] at hm
+              rcases hm with hm | rfl
+              · exact h1 m hm
+              · exact hchM
+            · exact hargs t ht
       next => cases h
     next hrest =>
       split at h
       · cases h
       next hcl =>
         injection h with h; subst h
-        constructor
-        · intro i t b hti hbi
+        refine ⟨?_, ?_, ?_, ?_⟩
+        · intro i t b hi hti hbi
           simp only [List.getElem?_map] at hti
           cases hx : s.ts[i]? with
           | none => simp [hx] at hti
           | some x =>
             simp [hx] at hti; subst hti
-            exact DInv.closeBuf (hd i x b hx hbi)
-        · intro i t hti
+            exact DInv.closeBuf (hd i x b hi hx hbi)
+        · intro i t hi hti
           simp only [List.getElem?_map] at hti
           cases hx : s.ts[i]? with
           | none => simp [hx] at hti
           | some x =>
             simp [hx] at hti; subst hti
-            rcases hcr i x hx with hc' | ⟨ch', hm⟩
+            rcases hcr i x hi hx with hc' | ⟨ch', hm⟩
             · exact Or.inl hc'
             · rw [hrest] at hm; cases hm
+        · exact hmd
+        · intro t ht
+          simp only [List.mem_map] at ht
+          obtain ⟨x, hx, rfl⟩ := ht
+          exact hargs x hx
   | snd j =>
     simp only [Eru.Misc.Sender.step] at h
     split at h
@@ -338,23 +429,23 @@ theorem DG.step (behs : List Beh) (C : List Byte) (s s' : State) (a : Action) (h
       | some tj' =>
         simp [hp] at h; subst h
         have hj : j < s.ts.length := (List.getElem?_eq_some_iff.mp htj).1
-        constructor
-        · intro i t b hti hbi
+        refine ⟨?_, ?_, hmd, ?_⟩
+        · intro i t b hi hti hbi
           simp only [List.getElem?_set] at hti
           by_cases hij : j = i
           · subst hij
             simp only [hj, if_true] at hti
             injection hti with hti; subst hti
-            exact DInv.sndStep (hT tj (List.mem_of_getElem? htj)) (hd j tj b htj hbi) hp
+            exact DInv.sndStep (hT tj (List.mem_of_getElem? htj)) (hd j tj b hi htj hbi) hp
           · simp only [hij, if_false] at hti
-            exact hd i t b hti hbi
-        · intro i t hti
+            exact hd i t b hi hti hbi
+        · intro i t hi hti
           simp only [List.getElem?_set] at hti
           by_cases hij : j = i
           · subst hij
             simp only [hj, if_true] at hti
             injection hti with hti; subst hti
-            rcases hcr j tj htj with hc' | hm
+            rcases hcr j tj hi htj with hc' | hm
             · left
               unfold Target.sndStep at hp
               repeat' split at hp
@@ -362,7 +453,12 @@ theorem DG.step (behs : List Beh) (C : List Byte) (s s' : State) (a : Action) (h
               all_goals (injection hp with hp; subst hp; exact hc')
             · exact Or.inr hm
           · simp only [hij, if_false] at hti
-            exact hcr i t hti
+            exact hcr i t hi hti
+        · intro t ht
+          rcases mem_set_cases ht with rfl | ht
+          · obtain ⟨h1, h2⟩ := hargs tj (List.mem_of_getElem? htj)
+            exact args_sndStep h1 h2 hp
+          · exact hargs t ht
     next => cases h
   | cop j =>
     simp only [Eru.Misc.Sender.step] at h
@@ -373,8 +469,8 @@ theorem DG.step (behs : List Beh) (C : List Byte) (s s' : State) (a : Action) (h
       | some tj' =>
         simp [hp] at h; subst h
         have hj : j < s.ts.length := (List.getElem?_eq_some_iff.mp htj).1
-        constructor
-        · intro i t b hti hbi
+        refine ⟨?_, ?_, hmd, ?_⟩
+        · intro i t b hi hti hbi
           simp only [List.getElem?_set] at hti
           by_cases hij : j = i
           · subst hij
@@ -382,16 +478,16 @@ theorem DG.step (behs : List Beh) (C : List Byte) (s s' : State) (a : Action) (h
             injection hti with hti; subst hti
             have hbb : bj = b := by rw [hbj] at hbi; injection hbi
             subst hbb
-            exact DInv.copStep (hT tj (List.mem_of_getElem? htj)) (hd j tj bj htj hbj) (hremc j tj htj) hp
+            exact DInv.copStep (hT tj (List.mem_of_getElem? htj)) (hd j tj bj hi htj hbj) (hremc j tj htj) hp
           · simp only [hij, if_false] at hti
-            exact hd i t b hti hbi
-        · intro i t hti
+            exact hd i t b hi hti hbi
+        · intro i t hi hti
           simp only [List.getElem?_set] at hti
           by_cases hij : j = i
           · subst hij
             simp only [hj, if_true] at hti
             injection hti with hti; subst hti
-            rcases hcr j tj htj with hc' | hm
+            rcases hcr j tj hi htj with hc' | hm
             · left
               unfold Target.copStep at hp
               repeat' split at hp
@@ -399,13 +495,33 @@ theorem DG.step (behs : List Beh) (C : List Byte) (s s' : State) (a : Action) (h
               all_goals (injection hp with hp; subst hp; exact hc')
             · exact Or.inr hm
           · simp only [hij, if_false] at hti
-            exact hcr i t hti
+            exact hcr i t hi hti
+        · intro t ht
+          rcases mem_set_cases ht with rfl | ht
+          · obtain ⟨h1, h2⟩ := hargs tj (List.mem_of_getElem? htj)
+            exact args_copStep h1 h2 hp
+          · exact hargs t ht
     next => cases h
 
-theorem Reach.data {behs : List Beh} {C : List Byte} {s s' : State} (h : Reach behs s s')
-    (hI : GInv behs s) (hD : DG behs C s) : DG behs C s' := by
+theorem Reach.data {behs : List Beh} {ids : List Nat} {C : List Byte} {M : CopyArgs} {s s' : State} (h : Reach behs s s')
+    (hI : GInv behs s) (hD : DG behs ids C M s) : DG behs ids C M s' := by
   induction h with
   | refl => exact hD
-  | step a hr hs ih => exact DG.step behs C _ _ a (hr.inv hI) ih hs
+  | step a hr hs ih => exact DG.step behs ids C M _ _ a (hr.inv hI) ih hs
+
+/-- runs counted by their length -/
+inductive RunN (behs : List Beh) : Nat → State → State → Prop where
+  | refl (s : State) : RunN behs 0 s s
+  | step {n : Nat} {s s' s'' : State} (a : Action) : RunN behs n s s' → step behs s' a = some s'' → RunN behs (n + 1) s s''
+
+theorem RunN.bounded {behs : List Beh} {n : Nat} {s s' : State} (h : RunN behs n s s') : n + s'.mu ≤ s.mu := by
+  induction h with
+  | refl => omega
+  | step a _ hs ih => have := step_decreases behs _ _ a hs; omega
+
+theorem RunN.reach {behs : List Beh} {n : Nat} {s s' : State} (h : RunN behs n s s') : Reach behs s s' := by
+  induction h with
+  | refl => exact Reach.refl _
+  | step a _ hs ih => exact Reach.step a ih hs
 
 end Eru.Misc.Sender
